@@ -14,6 +14,7 @@ pub fn def() -> PropDef {
         nontrivial,
         functional: true,
         rule: "context operation sequences (define/redefine, open scope, close scope, register function) over 3 names and up to 3 scope levels, every sequence of length <= 5 (quick) / <= 7 (thorough) exhaustively and random longer ones, with a lookup of every name and a probe of every function name after each step; the predicate replays the sequence against an independent stack-of-maps reference; plus programs nesting up to 3 macros whose iteration variables come from a 3-name pool that also names context variables and functions, with lookups after the macro; non-trivial = at least one scope is opened or a name is redefined (histories) / a macro is present (programs); distinct = distinct case text",
+        post: super::no_post,
         exhaustive_note: "operation sequences up to the stated length are enumerated completely",
     }
 }
